@@ -972,7 +972,14 @@ impl World {
     pub fn forged_denial_of_existing(&self, qname: &str, qtype: Rtype, mode: u8) -> Option<Resp> {
         let truth = self.resolve(qname, qtype);
         let name = qname.to_ascii_lowercase();
-        if truth.rcode_nx || truth.insecure || truth.answer.first().is_none_or(|r| lname(r.owner()) != name || r.rtype() != qtype) {
+        // Mode 5: "no data of that type" at the owner of an alias, shown with
+        // the alias's own NSEC / NSEC3 - which has the CNAME bit set and so
+        // proves nothing about other types (the signed CNAME was withheld).
+        if mode == 5 {
+            if truth.rcode_nx || truth.insecure || qtype == Rtype::CNAME || truth.answer.first().is_none_or(|r| lname(r.owner()) != name || r.rtype() != Rtype::CNAME) {
+                return None;
+            }
+        } else if truth.rcode_nx || truth.insecure || truth.answer.first().is_none_or(|r| lname(r.owner()) != name || r.rtype() != qtype) {
             return None;
         }
         let mut r = Resp::default();
@@ -1016,13 +1023,13 @@ impl World {
                     }
                 }
             }
-            0 | 1 => {
+            0 | 1 | 5 => {
                 let z = self.find_zone(&name, qtype);
                 if !z.signed || !z.has_owner(&name) {
                     return None;
                 }
                 z.push_set(&mut r.authority, &z.apex, Rtype::SOA, None);
-                if mode == 0 {
+                if mode == 0 || mode == 5 {
                     self.add_denial(z, &mut r, &name, &name, 0);
                 } else {
                     if name == z.apex {
